@@ -282,6 +282,7 @@ func TestC03(t *testing.T) {
 
 	if r.Only < 0 {
 		largeDatabase(t, r, dir)
+		longLivedInstance(t, r, dir)
 	}
 
 	// ---- fixtures written by the pinned commit ----
@@ -402,7 +403,7 @@ func TestC03(t *testing.T) {
 			}
 		}
 	}
-	r.Require("opens_of_files_with_other_modes", "restarts_after_io_failure", "restarts_after_concurrent_writes", "histories", "restarts", "restarts_after_acknowledged_mutation", "restarts_after_failed_mutation", "restarts_with_newest_version_deleted", "fixtures", "restarts_of_continued_fixtures", "stale_sibling_files", "restarts_after_audit_failure", "restarts_of_large_databases")
+	r.Require("opens_of_files_with_other_modes", "restarts_after_io_failure", "restarts_after_concurrent_writes", "histories", "restarts", "restarts_after_acknowledged_mutation", "restarts_after_failed_mutation", "restarts_with_newest_version_deleted", "fixtures", "restarts_of_continued_fixtures", "stale_sibling_files", "restarts_after_audit_failure", "restarts_of_large_databases", "restarts_beside_a_long_lived_instance")
 	r.Rule("seeded random histories of 20-30 operations over 3 ordinary names (+ empty and reserved), with a restart (second db.Open of the same path, full-state comparison with the model, per-name next-version probe on a copy, before/after hash+inode+mtime of the file) after EVERY operation; the history continues on the reopened handle half of the time. Plus 6 fixture databases written by the pinned commit. Distinct = (kind of the operation preceding the restart, its outcome class, number of names) and one class per fixture")
 }
 
@@ -462,6 +463,56 @@ func largeDatabase(t *testing.T, r *evid.Run, dir string) {
 		}
 	}
 	r.Distinct("large database")
+}
+
+// longLivedInstance: ONE server instance stays up for thousands of acknowledged writes (a counter that only
+// a long-running process reaches, a cache that only then fills up ...); after EVERY one of them the file is
+// opened a second time, as a restart at that very moment would, and must show the acknowledged state.
+func longLivedInstance(t *testing.T, r *evid.Run, dir string) {
+	os.MkdirAll(filepath.Join(dir, "longlived"), 0o700)
+	path := filepath.Join(dir, "longlived", "db")
+	key := realdb.DummyKey("c03-longlived")
+	d, err := realdb.Open(path, key)
+	if err != nil {
+		t.Error(err)
+		return
+	}
+	su := realdb.Super()
+	m := refmodel.New()
+	rng := r.Rand(515253)
+	cfg := ops.GenCfg{Names: []string{"p", "q", "r"}, Values: [][]byte{[]byte("one"), []byte("two"), []byte("three"), []byte("four")},
+		Weights: map[ops.Kind]int{ops.Put: 10, ops.Act: 4, ops.DelVer: 4, ops.Delete: 1}}
+	n := r.N(2600, 12000)
+	for i := 0; i < n; i++ {
+		op := ops.Gen(rng, m, cfg)
+		if op.Kind == ops.Put {
+			op.Value = []byte(fmt.Sprintf("%s-%d", op.Value, i)) // (every put really stores something)
+		}
+		want := ops.ApplyModel(m, nil, true, op)
+		got := ops.ApplyReal(d, su, op)
+		if !ops.Agree(want, got) {
+			r.Violation("live-result-differs", -1, fmt.Sprintf("long-lived instance, call #%d (%s): real %s, model %s", i, op, got, want), nil)
+			return
+		}
+		if want.Class != refmodel.OK {
+			continue
+		}
+		r.Eval(1)
+		d2, err := realdb.Open(path, key)
+		if err != nil {
+			r.Violation("reopen-fails", -1, fmt.Sprintf("long-lived instance: after its acknowledged write #%d (%s) the file does not open: %v", i, op, err), nil)
+			return
+		}
+		if i%16 == 0 || i > n-40 {
+			re, err := realdb.Dump(d2)
+			if err != nil || re.Canon() != m.Canon() {
+				r.Violation("restart-state-differs", -1, fmt.Sprintf("long-lived instance: after acknowledged write #%d (%s) the reopened state differs from the acknowledged one (err %v)", i, op, err), nil)
+				return
+			}
+		}
+		r.Count("restarts_beside_a_long_lived_instance", 1)
+	}
+	r.Distinct("long-lived instance")
 }
 
 // concurrentWriters: several clients write at the same time; once every call has been acknowledged the
